@@ -1777,6 +1777,10 @@ func main() {
 			}
 		}
 		_, why := fromSaveCaseE(o, "fromsave.malformed", s)
+		if (i%6 == 2 || i%6 == 4) && (why == "" || strings.HasPrefix(why, "panic") || why == "a section was not loaded") {
+			// an unknown block or biome name in a palette is reported as an error
+			o.Fail("C13.save.from-unknown-name", "a palette entry names a block / biome that does not exist: ChunkFromSave gave %q, an error is expected", why)
+		}
 		if i%6 == 0 && !strings.Contains(why, "heightmap") {
 			// a height map with the wrong number of longs is reported as an error (since fix: see meta)
 			o.Fail("C13.save.from-heightmap-size", "OCEAN_FLOOR with 3 longs: ChunkFromSave gave %q, an error is expected", why)
